@@ -55,16 +55,28 @@ def make_analyzer(datasets):
 
 
 def measure_delta(n=20000, bound=4, seed=0):
+    """re-measures the contract |float det - exact det| on n random unimodular integer matrices (products of elementary row
+    operations, entries bounded) - the stub's only trusted number"""
     rng = np.random.default_rng(seed)
     worst, cnt, neq = 0.0, 0, 0
     while cnt < n:
-        M = rng.integers(-bound, bound + 1, size=(3, 3))
-        d = round(np.linalg.det(M))
-        ex = int(M[0, 0] * (M[1, 1] * M[2, 2] - M[1, 2] * M[2, 1]) - M[0, 1] * (M[1, 0] * M[2, 2] - M[1, 2] * M[2, 0]) + M[0, 2] * (M[1, 0] * M[2, 1] - M[1, 1] * M[2, 0]))
+        M = np.eye(3, dtype=np.int64)
+        for _ in range(int(rng.integers(2, 9))):
+            i, j = rng.choice(3, 2, replace=False)
+            op = rng.integers(0, 3)
+            if op == 0:
+                M[i] = M[i] + int(rng.integers(-3, 4)) * M[j]
+            elif op == 1:
+                M[[i, j]] = M[[j, i]]
+            else:
+                M[i] = -M[i]
+        if np.abs(M).max() > bound:
+            continue
+        ex = int(round(float(M[0, 0] * (M[1, 1] * M[2, 2] - M[1, 2] * M[2, 1]) - M[0, 1] * (M[1, 0] * M[2, 2] - M[1, 2] * M[2, 0]) + M[0, 2] * (M[1, 0] * M[2, 1] - M[1, 1] * M[2, 0]))))
         if abs(ex) != 1:
             continue
         cnt += 1
-        err = abs(np.linalg.det(M) - ex)
+        err = abs(np.linalg.det(M.astype(float)) - ex)
         worst = max(worst, err)
         neq += err != 0
     return worst, neq / n
